@@ -3,6 +3,7 @@ CONSTANTS U = "filter" F = "small"
 INVARIANT TypeOK
 INVARIANT Compositional
 INVARIANT RoeFalseNeverRaises
+INVARIANT NothingInvented
 INVARIANT FilterKeeps
 INVARIANT SecondRunSame
 INVARIANT FilterOrder
